@@ -145,6 +145,7 @@ func skipWalk(c *fw.Ctx, ks []kind, nFields int, fast bool) {
 	}
 	var ops []decOp
 	var concat []byte
+	var visited [][3]int // tag, wire type, offset of the value
 	outcome := "ok"
 	i := 0
 	for d.More() {
@@ -174,7 +175,25 @@ func skipWalk(c *fw.Ctx, ks []kind, nFields int, fast bool) {
 			break
 		}
 		concat = append(concat, want...)
+		visited = append(visited, [3]int{t, w, refBounds[i][0] + rawVarintLen(msg[refBounds[i][0]:])})
 		i++
+	}
+	// the same decoder revisits fields it has passed: Seek to where a field's VALUE starts (what a caller that kept the
+	// offset after DecodeTag does), then Skip with that field's tag and wire type — still the whole field, whatever key
+	// the decoder read last
+	for rv := 0; outcome == "ok" && rv < 3 && len(visited) > 1; rv++ {
+		j := c.Rng.Intn(len(visited))
+		sk := decOp{name: "seek", a: int64(visited[j][2]), b: 0}
+		op := decOp{name: "skip", a: int64(visited[j][0]), b: int64(visited[j][1])}
+		ops = append(ops, sk, op)
+		decCall(d, sk)
+		r := decCall(d, op)
+		want := msg[refBounds[j][0]:refBounds[j][1]]
+		if !r.ok || r.item[1:] != hexs(want) || d.Offset() != refBounds[j][1] {
+			outcome = "revisit-mismatch"
+			c.Violate(fw.Violation{Stream: "skip-walk", Signature: fmt.Sprintf("skip/revisit/wt%d", visited[j][1]), What: "Skip after Seek to the value of an earlier field did not return exactly that field's raw encoding",
+				Input: fmt.Sprintf("%s seek %d skip %d %d", hexs(msg), visited[j][2], visited[j][0], visited[j][1]), Expected: fmt.Sprintf("%s then offset %d", hexs(want), refBounds[j][1]), Got: fmt.Sprintf("%s then offset %d", r.reply, d.Offset())})
+		}
 	}
 	if outcome == "ok" && !bytes.Equal(concat, msg) {
 		outcome = "concat-mismatch"
@@ -187,6 +206,44 @@ func skipWalk(c *fw.Ctx, ks []kind, nFields int, fast bool) {
 	if c.Rng.Intn(300) == 0 {
 		c.Sample(map[string]interface{}{"stream": "skip-walk", "fields": len(refBounds), "message": trunc(hexs(msg), 120)})
 	}
+}
+
+// encSeqVsRef writes a whole message — 2-8 fields, field numbers drawn from a pool of two or three so that the
+// same number comes back with the same and with a DIFFERENT kind (a repeated field written unpacked and packed,
+// a field read under two schemas) — through ONE Encoder and compares with the concatenation of the reference's
+// encodings of the fields: whatever the encoder keeps between calls must not show in the bytes.
+func encSeqVsRef(c *fw.Ctx, all []kind) {
+	const stream = "enc-seq-vs-ref"
+	pool := make([]int, 2+c.Rng.Intn(2))
+	for i := range pool {
+		pool[i] = genTag(c.Rng)
+	}
+	var ops []encOp
+	var ref []byte
+	var names []string
+	n := 2 + c.Rng.Intn(7)
+	for i := 0; i < n; i++ {
+		k := all[c.Rng.Intn(len(all))]
+		op := k.enc(pool[c.Rng.Intn(len(pool))], k.gen(c.Rng))
+		ops = append(ops, op)
+		ref = append(ref, refEncode(op)...)
+		names = append(names, fmt.Sprintf("%s@%d", k.name, op.tag))
+	}
+	desc := fmt.Sprintf("one encoder: %v", names)
+	c.Journal("C02 encseq " + desc)
+	req, reply, panicked, buf, off := runEncProgram(len(ref), ops)
+	c.Model(stream, req, reply)
+	outcome := "identical"
+	if panicked || off != len(ref) || !bytes.Equal(buf, ref) {
+		outcome = "differs"
+		got := "panic"
+		if !panicked {
+			got = fmt.Sprintf("%s (cursor %d)", hexs(buf), off)
+		}
+		c.Violate(fw.Violation{Stream: stream, Signature: "encode/sequence/not-canonical",
+			What: "a sequence of fields written by one Encoder differs from the concatenation of the reference's canonical encodings", Input: trunc(req, 600), Expected: trunc(hexs(ref), 400), Got: trunc(got, 400)})
+	}
+	c.Count(stream, req, outcome, len(ref), len(ops) > 1)
 }
 
 func specVsRef(c *fw.Ctx, n int) {
@@ -254,6 +311,7 @@ func runC02(c *fw.Ctx) int {
 		decOnRef(c, k, tag, v, ref, c.Rng.Bool())
 		if i%4 == 0 {
 			skipWalk(c, all, 1+c.Rng.Intn(8), c.Rng.Bool())
+			encSeqVsRef(c, all)
 		}
 		if i%5000 == 4999 {
 			c.FlushModel()
@@ -263,7 +321,7 @@ func runC02(c *fw.Ctx) int {
 		c.LeanChecker("C02")
 	}
 	return c.Finish(
-		"enc-vs-ref: every scalar/packed kind encoded by csproto and by protowire (reference) on boundary-biased values and field numbers, bytes compared; dec-on-ref: the reference's bytes decoded by csproto in safe/fast mode; skip-walk: messages of 1-8 reference-encoded fields walked with DecodeTag+Skip, each slice compared with protowire.ConsumeField boundaries; spec-vs-ref: the Lean specification itself against protowire; non-trivial = distinct case longer than 2 bytes (skip-walk: at least 2 fields)",
+		"enc-seq-vs-ref: 2-8 fields of random kinds at two or three field numbers (so numbers repeat with the same and with a different wire type) written by ONE Encoder, compared with the concatenated reference encodings; skip-walk also revisits passed fields on the same decoder (Seek to the value, then Skip); enc-vs-ref: every scalar/packed kind encoded by csproto and by protowire (reference) on boundary-biased values and field numbers, bytes compared; dec-on-ref: the reference's bytes decoded by csproto in safe/fast mode; skip-walk: messages of 1-8 reference-encoded fields walked with DecodeTag+Skip, each slice compared with protowire.ConsumeField boundaries; spec-vs-ref: the Lean specification itself against protowire; non-trivial = distinct case longer than 2 bytes (skip-walk: at least 2 fields)",
 		append(trustedCommon, "google.golang.org/protobuf/encoding/protowire as the independent reference (used by the oracle and to validate the Lean specification)"),
 		[]string{"conforming = minimal varints/keys, values in range, four supported wire types; groups and non-minimal encodings are out of scope here (totality: C03)"})
 }
